@@ -799,3 +799,44 @@ fn ks_compare_exists() {
     assert!(!sel.compare(&op, &lit, &none));
     assert!(!sel.compare(&op, &none, &lit));
 }
+
+fn predicate_path() -> JsonPath<'static> {
+    JsonPath { paths: vec![Path::Predicate(Box::new(Expr::Value(Box::new(PathValue::Null))))] }
+}
+
+/// C15 stand-alone predicate: in EVERY mode `select` appends exactly the boolean scalar document (true iff the
+/// evaluation found something) and exactly one offset == data.len(); prior bytes untouched; exists is true
+fn check_predicate(n: usize, mode: Mode) {
+    let a = [sc_w0().it, sc_str2().it];
+    let doc = lay_array(&a);
+    let offs = array_offsets(0, &a);
+    if n == 0 { set_positions(&[], &[]); } else { set_positions(&[a[1]], &[offs[1]]); }
+    let o = run_select(predicate_path(), mode, doc.as_slice());
+    prior_untouched(&o);
+    assert!(o.offsets.len() == 2);
+    assert!(o.data.len() == NPRE + 8);
+    assert!(o.offsets[1] == (NPRE + 8) as u64);
+    let w = if n == 0 { [0x20u8, 0, 0, 0, 0x30, 0, 0, 0] } else { [0x20u8, 0, 0, 0, 0x40, 0, 0, 0] };
+    let mut k = 0;
+    while k < 8 {
+        assert!(o.data[NPRE + k] == w[k]);
+        k += 1;
+    }
+}
+
+#[kani::proof]
+#[kani::unwind(10)]
+#[kani::stub(Selector::find_positions, fp_stub)]
+fn ks_predicate_modes() {
+    let m: u8 = kani::any();
+    kani::assume(m < 4);
+    let mode = if m == 0 { Mode::All } else if m == 1 { Mode::First } else if m == 2 { Mode::Array } else { Mode::Mixed };
+    let n: usize = kani::any();
+    kani::assume(n < 2);
+    check_predicate(n, mode);
+    let sel = Selector::new(predicate_path(), Mode::Mixed);
+    let a = [sc_w0().it, sc_str2().it];
+    let doc = lay_array(&a);
+    assert!(sel.exists(doc.as_slice()) == Ok(true));
+    std::mem::forget(sel);
+}
